@@ -629,7 +629,10 @@ class Interp:
             return e.value
         if isinstance(e, ast.Name):
             if env.has(e.id):
-                return env.get(e.id)
+                v_ = env.get(e.id)
+                if isinstance(v_, _LazyClassConst):
+                    return v_.it._ev_in_module(v_.expr)
+                return v_
             if e.id in ('True', 'False', 'None'):
                 return {'True': True, 'False': False, 'None': None}[e.id]
             if e.id in ('str', 'int', 'float', 'list', 'dict', 'tuple', 'set', 'bool'):
@@ -886,8 +889,20 @@ class Interp:
         mod = self.fn_module.get(id(expr))
         if mod is not None:
             self.module = mod
+        # a constant defined in a class body sees the constants defined before it in that body (`B = (X,) + A`)
+        env = Env()
+        cls_ = getattr(expr, '_parent', None)
+        while cls_ is not None and not isinstance(cls_, (ast.ClassDef, ast.Module, ast.FunctionDef)):
+            cls_ = getattr(cls_, '_parent', None)
+        if isinstance(cls_, ast.ClassDef):
+            for st in cls_.body:
+                if isinstance(st, ast.Assign) and len(st.targets) == 1 and isinstance(st.targets[0], ast.Name):
+                    if st.value is expr or any(x is expr for x in ast.walk(st.value)):
+                        break
+                    nm, ex = st.targets[0].id, st.value
+                    env.vars[nm] = _LazyClassConst(self, ex)
         try:
-            v = self.ev(expr, Env())
+            v = self.ev(expr, env)
         finally:
             self.module = saved
         if isinstance(v, (list, dict, set)):
@@ -1197,6 +1212,12 @@ class ClassRef:
 
     def __hash__(self):
         return hash(self.name)
+
+
+class _LazyClassConst:
+    """an earlier constant of the same class body, evaluated when (and if) a later constant of that body mentions it"""
+    def __init__(self, it, expr):
+        self.it, self.expr = it, expr
 
 
 class BoundMethod:
